@@ -116,7 +116,11 @@ impl CodeGenerator {
     /// Returns random float value within the bounds given by configuration
     pub fn random_float(push_state: &PushState) -> Option<f32> {
         let mut rng = rand::thread_rng();
-        if push_state.configuration.min_random_float < push_state.configuration.max_random_float {
+        let span =
+            push_state.configuration.max_random_float - push_state.configuration.min_random_float;
+        if push_state.configuration.min_random_float < push_state.configuration.max_random_float
+            && span.is_finite()
+        {
             Some(rng.gen_range(
                 push_state.configuration.min_random_float
                     ..push_state.configuration.max_random_float,
